@@ -166,6 +166,7 @@ func MapOrderAll(on bool)          {}
 func RaceDetect(on bool)           {}
 func RaceWatch(on bool)            {}
 func HBRelease(obj any)            {}
+func RaceAccess(obj any, w bool)   {}
 func HBAcquire(obj any)            {}
 
 // Observe records values for translation validation.
